@@ -318,7 +318,7 @@ def run(ctx):
                             if not check_config(ctx, lib, nodes, idmap, par, ch, s, st, ci, ml, case, names):
                                 break
         ctx.exhaustive.append("all ordered trees with %d nodes x every start x 8 styles x 7 childiters x maxlevel None,0..h+1%s" % (n, "" if n <= 6 else " (1/4 of the style x childiter grid)"))
-    nrand = (10000 if T else 480) // ctx.nshards + 1
+    nrand = (80000 if T else 480) // ctx.nshards + 1
     for r in range(nrand):
         rng = ctx.rng("rand", r)
         n = rng.randint(8, 40)
